@@ -218,6 +218,52 @@ def signal_worker(k):
             inf_rows = sorted(float(h) for s_, i_, q_, h in _nlp.normal_rows(gv, lbv, ubv) if s_ == 1)
             out["sm"] = {"L": L, "gist_t": vals[0], "gist_c": vals[1], "t": vals[2], "v": vals[3], "u": vals[4], "gist_u": vals[5], "tc": vals[6],
                          "rows": int(opti2.g.numel()), "ineq_rows": inf_rows}
+            # (c) SplineMethod, chain of length >= 2: path constraints that leave out the first / last grid point, and
+            #     a grid='inf' constraint on a sum of chain members of different spline degree
+            if L >= 2:
+                def chain():
+                    o = rockit.Ocp(t0=t0, T=T)
+                    ys = [o.state() for _ in range(L)]
+                    w = o.control()
+                    for i in range(L - 1):
+                        o.set_der(ys[i], ys[i + 1])
+                    o.set_der(ys[-1], w)
+                    o.add_objective(o.at_tf(ys[0]) ** 2)
+                    return o, ys, w
+                incl = (bool(k["N"] % 2), bool(k["d"] % 2))          # (include_first, include_last)
+                o4, ys, w = chain()
+                o4.subject_to(ys[0] <= 3, include_first=incl[0], include_last=incl[1])
+                o4.method(rockit.SplineMethod(N=N, grid=rockit.GeometricGrid(2.0)) if k.get("geo") else rockit.SplineMethod(N=N))
+                o4.solver("ipopt", {"ipopt.print_level": 0, "print_time": False})
+                tv4, vv4 = o4.sample(ys[0], grid="control")
+                op4 = o4._method.opti
+                f4 = ca.Function("f4", [op4.x], [ca.vec(vv4), op4.g, op4.lbg, op4.ubg])
+                rng4 = np.random.RandomState(k["N"] * 11 + k["d"])
+                x4 = np.round(rng4.uniform(-2, 2, op4.x.numel()) * 8) / 8
+                v4, g4, lb4, ub4 = [np.array(v).reshape(-1) for v in f4(x4)]
+                out["incl"] = {"include": list(incl), "values": v4.tolist(),
+                               "ineq_rows": sorted(float(h) for s_, i_, q_, h in _nlp.normal_rows(g4, lb4, ub4) if s_ == 1)}
+                # mixed degrees: either rejected, or sufficient (rows hold, tightest with equality => refined sample below the bound)
+                o5, ys5, w5 = chain()
+                o5.subject_to(ys5[0] + ys5[1] <= 5, grid="inf")
+                o5.method(rockit.SplineMethod(N=N))
+                o5.solver("ipopt", {"ipopt.print_level": 0, "print_time": False})
+                try:
+                    t5, e5 = o5.sample(ys5[0] + ys5[1], grid="control", refine=8)
+                    op5 = o5._method.opti
+                    f5 = ca.Function("f5", [op5.x], [ca.vec(e5), op5.g, op5.lbg, op5.ubg])
+                    x5 = np.abs(np.round(np.random.RandomState(k["N"] * 13 + k["d"]).uniform(0.2, 2, op5.x.numel()) * 8) / 8)
+                    _, g5, lb5, ub5 = [np.array(v).reshape(-1) for v in f5(x5)]
+                    # the rows are affine in the decision vector: a.x - 5 <= 0; scale x so that the tightest holds with equality
+                    ax = np.array([h + 5.0 for s_, i_, q_, h in _nlp.normal_rows(g5, lb5, ub5) if s_ == 1])
+                    if len(ax) and ax.max() > 1e-9:
+                        alpha = 5.0 / ax.max()
+                        e5v = np.array(f5(alpha * x5)[0]).reshape(-1)
+                        out["mixed_inf"] = {"accepted": True, "max_refined": float(e5v.max()), "bound": 5.0}
+                    else:
+                        out["mixed_inf"] = {"accepted": True, "max_refined": None}
+                except Exception as e5x:
+                    out["mixed_inf"] = {"accepted": False, "error": str(e5x)[:120]}
     except Exception as e:
         out["error"] = "%s: %s" % (type(e).__name__, str(e)[:300])
         out["trace"] = traceback.format_exc()[-1500:]
@@ -298,6 +344,20 @@ def judge_signal(k, r):
                 return [{"what": "SplineMethod: the grid='inf' bound on an affine expression with a constant offset is not imposed "
                                  "on the spline coefficients", "coefficient": cj, "expected_row_value": h}]
             rows.pop(hit)
+    # path constraints leaving out the first / last grid point
+    if "incl" in r:
+        inc = r["incl"]
+        vals = inc["values"][(0 if inc["include"][0] else 1):(len(inc["values"]) if inc["include"][1] else len(inc["values"]) - 1)]
+        exp = sorted(v - 3.0 for v in vals)
+        got = inc["ineq_rows"]
+        if len(exp) != len(got) or not all(engine.close(a, b, scale=abs(b)) for a, b in zip(got, exp)):
+            return [{"what": "SplineMethod: a path constraint with include_first=%s, include_last=%s is not imposed at exactly the "
+                             "declared grid points" % tuple(inc["include"]), "rows_rockit": got, "rows_expected": exp}]
+    # grid='inf' on a sum of chain members of different degree: rejected, or a sufficient condition
+    mi = r.get("mixed_inf")
+    if mi and mi.get("accepted") and mi.get("max_refined") is not None and mi["max_refined"] > mi["bound"] * (1 + 1e-9):
+        return [{"what": "SplineMethod: grid='inf' constraint on a sum of splines of different degree: all generated rows hold "
+                         "(tightest with equality) yet the refined sample exceeds the bound", "max_refined": mi["max_refined"], "bound": mi["bound"]}]
     # the control is the L-th derivative in physical time: chain dynamics hold identically
     co = list(cg)
     for q in range(dd):
